@@ -166,6 +166,11 @@ func GenHistory(r *hx.Rng, nops int, big bool) []Op {
 			if l > 100000 {
 				bigLeft--
 			}
+			if r.Intn(25) == 0 {
+				// an over-sized write (256 sectors or more): refused, and nothing may change - neither the
+				// file nor the in-memory occupancy that later allocations rely on
+				l = r.Pick(1044477, 1048572, 1048573, 1100000)
+			}
 			ops = append(ops, Op{Kind: 'w', X: c.x, Z: c.z, Len: l, Seed: r.Intn(256)})
 		case k < 15:
 			if r.Intn(5) == 0 {
